@@ -104,6 +104,17 @@ func (e *Enc) exec(in ssa.Instruction) {
 		e.closures[in] = in
 		c := e.fresh("closure_"+in.Name(), "Int")
 		e.assumeG(tLt("0", c))
+		if f, ok := in.Fn.(*ssa.Function); ok {
+			// which function the closure runs (isfunc(x, "name") in specs)
+			e.assumeG(tEq(sx("fnid", c), tInt(int64(e.W.typeIDByName("fn:"+normalizeFnKey(f.String()))))))
+		}
+		// what the closure captured: bound(x, i, "type") in specs (for a bound method value x.M, binding 0 is x)
+		for i, b := range in.Bindings {
+			srt := e.sortOf(b.Type())
+			fn := closureBindFn(i, srt)
+			e.declareFun(fn, []string{"Int"}, srt)
+			e.assume(tEq(sx(fn, c), e.val(b).T))
+		}
 		e.vals[in] = Val{T: c}
 	case *ssa.MakeMap:
 		e.execMakeMap(in)
@@ -455,6 +466,10 @@ func (e *Enc) execBinOp(in *ssa.BinOp) {
 			e.setVal(in, sx("+", x, y))
 		case token.SUB:
 			e.setVal(in, sx("-", x, y))
+		case token.MUL:
+			// the real product; the rounding of each floating-point operation is accounted for where a float is
+			// converted back to an integer (execConvert: exact below 2^53, a margin above)
+			e.setVal(in, sx("*", x, y))
 		default:
 			e.havocVal(in, "float")
 		}
@@ -675,7 +690,27 @@ func (e *Enc) execConvert(in *ssa.Convert) {
 		}
 		e.setVal(in, sx("to_real", x))
 	case isFloat(from) && isInteger(to):
-		e.havocVal(in, "conv")
+		// float -> integer. Floats are modelled as reals; a float64 value obtained from integers by a few + - * operations
+		// equals the real result exactly while that stays below 2^53 in magnitude, and within 2^12 of it up to the
+		// target's range (ulp <= 2^10 below 2^63, a few operations). Beyond the target's range the Go specification leaves
+		// the result implementation-defined: it is an arbitrary value of the target type.
+		c := e.havocVal(in, "f2i")
+		if e.bv {
+			return
+		}
+		tlo, thi, okR := intRange(to)
+		if !okR {
+			return
+		}
+		tr := e.fresh("f2i_trunc", "Int")
+		// tr = x truncated toward zero
+		e.assume(tIte(sx(">=", x, "0.0"), tAnd(tLe(sx("to_real", tr), x), sx("<", x, sx("to_real", tAdd(tr, "1")))),
+			tAnd(sx(">=", sx("to_real", tr), x), sx(">", x, sx("to_real", sx("-", tr, "1"))))))
+		small := tAnd(tLe("(- 9007199254740992)", tr), tLe(tr, "9007199254740992"))
+		inRange := tAnd(tLe(tlo, tr), tLe(tr, thi))
+		e.assume(tImp(small, tImp(inRange, tEq(c, tr))))
+		e.assume(tImp(tAnd(tNot(small), inRange, tLe(tlo, sx("-", tr, "4096")), tLe(tAdd(tr, "4096"), thi)),
+			tAnd(tLe(sx("-", tr, "4096"), c), tLe(c, tAdd(tr, "4096")))))
 	case isFloat(from) && isFloat(to):
 		e.setVal(in, x)
 	case isString(to) && isByteSlice(from):
